@@ -68,7 +68,13 @@ SEQ = "GATTACAGGCCTTAGCAGTCCATGGCTAAGCTTGACCGTAGGCTTACCGATAGCTTAGGCA"  # 60 nt
 SEQ2 = "TTGACGGATCCATTGCAGGCTAACGTTAGCCATGGACTTGCAAGGCTTAACGGATCATGC"  # 60 nt: the pseudogene part of a reference that spans both
 
 
-def base_yml(alleles, pseudogene_in_reference=False):
+def base_yml(alleles, pseudogene_in_reference=False, region_names=None):
+    if region_names:
+        y = base_yml(alleles, pseudogene_in_reference)
+        st = y["structure"]
+        st["regions"] = {b: {region_names.get(r, r): v for r, v in regs.items()} for b, regs in st["regions"].items()}
+        st["cn_regions"] = [region_names.get(r, r) for r in st["cn_regions"]]
+        return y
     if pseudogene_in_reference:
         return {"name": "G", "version": "1", "generated": "x",
                 "reference": {"name": "NG_1", "seq": SEQ + SEQ2, "mappings": {"hg19": ["1", 1001, 1121, "+", "M120"], "hg38": ["1", 5001, 5121, "-", "M120"]},
@@ -163,6 +169,23 @@ def databases():
         "G*3": {"mutations": [C25, P82]},
         "G*13": {"mutations": [["GP", "e2-"]]},
         "G*36": {"mutations": [["GP", "e2+"], C20]},
+        "G*5": {"mutations": [["G", "deletion"]]},
+    }))
+    # a left-fusion breakpoint shared by a bare fusion allele and a fusion allele with a core variant of its own
+    dbs.append(("a bare left fusion and a left fusion with its own core variant at one breakpoint", {
+        "G*1": {"mutations": []},
+        "G*2": {"mutations": [C20, S45]},
+        "G*13": {"mutations": [["GP", "e2-"]]},
+        "G*68": {"mutations": [["GP", "e2-"], C52]},
+        "G*68.002": {"mutations": [["GP", "e2-"], C52, S45]},
+        "G*5": {"mutations": [["G", "deletion"]]},
+    }))
+    # region names that contain each other: a custom partial deletion names one of them
+    dbs.append(("NAMES: custom partial deletion among regions whose names contain each other", {
+        "G*1": {"mutations": []},
+        "G*2": {"mutations": [C20]},
+        "G*7": {"mutations": [["G", "deletion:utr"], S45]},
+        "G*8": {"mutations": [["G", "deletion:ut,utr"]]},
         "G*5": {"mutations": [["G", "deletion"]]},
     }))
     return dbs
@@ -431,7 +454,8 @@ def run(repo, res):
     f = repo.func("gene::Gene._init_alleles")
     for fn in ("_init_basic", "_init_regions", "_init_alleles", "_init_partials", "get_allele", "get_functional"):
         res.analysed(f"gene::Gene.{fn}")
-    dbs = [(l, base_yml(a, pseudogene_in_reference=l.startswith("PSEUDO"))) for l, a in databases()]
+    dbs = [(l, base_yml(a, pseudogene_in_reference=l.startswith("PSEUDO"), region_names={"up": "ut", "e1": "utr"} if l.startswith("NAMES") else None))
+           for l, a in databases()]
     if thorough():
         rnd = random.Random(seed())
         for i in range(20):
